@@ -107,6 +107,13 @@ def _replay_history_orphan(inputs):
 
 
 def merge_all_pages(chk, prefix="C01"):
+    done = getattr(chk, "_listed", None)
+    if done is None:
+        done = chk._listed = set()
+    if "merge_run" in done:
+        return None
+    done.add("merge_run")
+    done.add("merge")
     eng = Engine(hooks=StateHooks())
     eng.container_models["zseq"] = SeqModel()
     eng.container_models["zset"] = eng.container_models["zsetview"] = eng.container_models["zmapset"] = SetModel()
